@@ -220,6 +220,10 @@ def guard_for(path, ev_index, ev, kind, consts):
             # amount is remaining() of the same buffer, or min(.., remaining/len)
             if amount[0] == "call" and pa.short(amount[1]) in ("remaining", "len") and amount[2] and amount[2][0] == b:
                 return "amount = remaining() of the same buffer"
+            # min(.., b.remaining()) never exceeds what the buffer holds
+            if amount[0] == "call" and pa.short(amount[1]) == "min" and amount[1].startswith(("core::cmp::", "<usize as core::cmp::Ord>", "core::num::")) and \
+                    any(a_[0] == "call" and pa.short(a_[1]) in ("remaining", "len") and a_[2] and _same_buf(a_[2][0], b) for a_ in amount[2]):
+                return "amount = min(.., remaining() of the same buffer)"
             lo = None
             for tst in prior:
                 nf = expr.orient(expr.cmp_nf(tst[3], tst[2]), lambda v: v[0] == "call" and pa.short(v[1]) == "remaining" and v[2] and v[2][0] == b)
@@ -256,18 +260,30 @@ def guard_for(path, ev_index, ev, kind, consts):
     return None
 
 
-def audit_body(prog, body, max_visits=1, max_paths=4000, env=None):
+def _same_buf(x, b):
+    """x and b denote the same buffer (a `&*x` / deref_mut reborrow in between does not matter)."""
+    def strip(v):
+        while v[0] == "call" and pa.short(v[1]) in ("deref", "deref_mut", "borrow", "borrow_mut", "as_ref", "as_mut") and v[2]:
+            v = v[2][0]
+        return v
+    return strip(x) == strip(b)
+
+
+def audit_body(prog, body, max_visits=1, max_paths=4000, env=None, with_slots=False):
     """[(bb, term, kind, status, detail)] with status 'discharged' | 'open' | 'unreached'.
-    `env` (local -> value) specialises the exploration to the argument values every reachable caller passes."""
+    `env` (local -> value) specialises the exploration to the argument values every reachable caller passes.
+    with_slots: a sixth element says whether the site counts against an audited-table ceiling: sites of one kind and callee that
+    never lie on the same path (the same statement written into both arms of a branch instead of after it) share one slot."""
     sites = enumerate_sites(body)
     if not sites:
         return []
     try:
         ps = pa.Explorer(prog, body, max_visits=max_visits, max_paths=max_paths).paths(env=env)
     except pa.PathExplosion:
-        return [(bb, t, k, "open", "path explosion") for bb, t, k in sites]
+        return [(bb, t, k, "open", "path explosion") + ((True,) if with_slots else ()) for bb, t, k in sites]
     res = {}
-    for p in ps:
+    on_paths = {}
+    for pi, p in enumerate(ps):
         for i, e in enumerate(p.events):
             if e[0] not in ("call", "assert"):
                 continue
@@ -275,6 +291,7 @@ def audit_body(prog, body, max_visits=1, max_paths=4000, env=None):
             k = site_kind(t)
             if not k:
                 continue
+            on_paths.setdefault(e[1], set()).add(pi)
             g = guard_for(p, i, e, k, prog.consts)
             cur = res.get(e[1])
             if cur is None:
@@ -292,4 +309,22 @@ def audit_body(prog, body, max_visits=1, max_paths=4000, env=None):
             out.append((bb, t, k, "discharged", "%s (%d paths)" % (r[1], r[2])))
         else:
             out.append((bb, t, k, "open", ""))
+    if with_slots:
+        slots = {}
+        out2 = []
+        for row in out:
+            bb, t, k = row[:3]
+            grp = (k, t.ckey if t.t == "call" else (t.akind, t.aop))
+            mine = on_paths.get(bb)
+            opened = True
+            if mine:
+                for sl in slots.setdefault(grp, []):
+                    if not (sl & mine):
+                        sl |= mine
+                        opened = False
+                        break
+                else:
+                    slots[grp].append(set(mine))
+            out2.append(row + (opened,))
+        return out2
     return out
